@@ -31,8 +31,10 @@ def run(ctx):
 
     ctx.rule("R6.invalidate-visits-every-region", "invalidate_regions clears every initialised regional slot: the loop runs over all of regional_states to exhaustion, skipping (not stopping at) uninitialised slots", floor=1)
     ctx.rule("R7.fresh-generation-per-write", "the generation drawn for a write can never equal the initial value's generation: next_generation starts above the constant stamped on the initial value, and is only ever incremented", floor=2)
+    ctx.rule("R8.install-does-not-clobber-set", "region_local: the initialiser (and its panic cleanup) replaces only its own `Initializing` marker (compare_and_swap) - an unconditional store there would overwrite a set_local that completed while the user initialiser ran", floor=2)
     rcv = "region_cached::region_cached::RegionCached"
     invalidate_and_generation_rules(ctx, prog)
+    local_install_rule(ctx, prog)
     sg = prog.one("region_cached::RegionCached::set_global")
     if sg is None:
         ctx.missing("R1.publish-then-invalidate", "RegionCached::set_global")
@@ -124,7 +126,7 @@ def run(ctx):
                 if not b.blocks[bb].cleanup and t["callee"].get("method") == "clone" and any(ta.get("param") for ta in t["callee"].get("targs", [])) \
                         and "Arc" not in t["callee"]["full"] and bb not in usr:
                     usr.append(bb)
-            stores = [(bb, t) for bb, t in b.calls() if t["callee"].get("method") == "store" and "arc_swap" in callee_key(t["callee"]).lower()]
+            stores = [(bb, t) for bb, t in b.calls() if t["callee"].get("method") in ("store", "compare_and_swap", "swap") and "arc_swap" in callee_key(t["callee"]).lower()]
             if not g and not usr:
                 continue
             ok = len(g) == 1 and len(defuse) == 1 and bool(usr) and all(g[0][0] in dom[u] for u in usr) and \
@@ -134,7 +136,7 @@ def run(ctx):
                 cl = uc.linked_closures(b, g[0][1])
                 okc = False
                 for c in cl:
-                    st2 = [t for bb, t in c.calls() if t["callee"].get("method") == "store"]
+                    st2 = [t for bb, t in c.calls() if t["callee"].get("method") in ("store", "compare_and_swap", "swap")]
                     sets = [t for bb, t in c.calls() if t["callee"].get("method") == "set"]
                     okc = bool(st2) and bool(sets)
                 ok = okc
@@ -216,3 +218,35 @@ def invalidate_and_generation_rules(ctx, prog):
     ok = bool(ops) and all(e["op"] == "fetch_add" and e["vals"] and isinstance(e["vals"][0], int) and e["vals"][0] >= 1 for _b, e in ops)
     ctx.ob("R7.fresh-generation-per-write", "monotone", ok, ops[0][0].loc() if ops else "",
            f"writes to next_generation: {[(b.name, e['op'], e['vals']) for b, e in ops]}")
+
+
+def local_install_rule(ctx, prog):
+    RID = "R8.install-does-not-clobber-set"
+    ini = prog.one("region_local::region_local::RegionalState::initialize") or prog.one("region_local::RegionalState::initialize")
+    cands = [b for b in prog.bodies if b.crate == "region_local" and b.name == "initialize" and not b.is_closure]
+    if not cands:
+        ctx.missing(RID, "region_local RegionalState::initialize")
+        return
+    ini = cands[0]
+    ctx.fn(ini)
+    n = 0
+    for b in [ini] + prog.closures_of(ini):
+        for bb, t in b.calls():
+            k = callee_key(t["callee"])
+            m = t["callee"].get("method")
+            if "arc_swap" not in k.lower() and "ArcSwap" not in k:
+                continue
+            if m in ("load", "load_full", "deref", "as_ref"):
+                continue
+            sl = Slice(b).run(t["args"][0]) if t["args"] else {"fields": set(), "upvars": set()}
+            on_value = any(f.endswith("RegionalState::value") for f in sl["fields"]) or b.is_closure
+            if not on_value:
+                continue
+            n += 1
+            ok = m in ("compare_and_swap", "rcu")
+            ctx.ob(RID, f"{'initialize' if not b.is_closure else 'initialize.cleanup'}|{m}#{n}", ok, b.loc(t["span"]),
+                   f"slot write `{m}` in the initialiser{' (panic cleanup closure)' if b.is_closure else ''}: " +
+                   ("conditional on the expected current value" if ok else
+                    "unconditional - a set_local that completed while the user initialiser ran is overwritten and the region serves the older value from then on"))
+    if n == 0:
+        ctx.missing(RID, "slot writes in region_local initialize")
